@@ -246,7 +246,8 @@ func c03Check(sc *hpScenario, obs *hpObs, r *vrt.Result, report func(kind, detai
 		}
 		// no upstream could be reached (connection not established in time, connect failure,
 		// no route, no host, none healthy): MOSN's "no healthy upstream"/"router unavailable" reply
-		if n == 0 || len(sc.FailHosts) > 0 || len(sc.TimeoutHosts) > 0 || sc.RetryOn {
+		// (a send failure is a connection failure too: MOSN retries it on another host whatever the policy)
+		if n == 0 || len(sc.FailHosts) > 0 || len(sc.TimeoutHosts) > 0 || sc.RetryOn || sc.UpBreakAtWrite > 0 {
 			allowed[bolt.ResponseStatusNoProcessor] = true
 		}
 		if sc.NoRoute || sc.NoHosts || sc.AllUnhealthy {
